@@ -18,7 +18,8 @@ FormulaKinds == {"none", "valid_arith", "valid_fn", "valid_nested3", "valid_cros
                  "lit_quote", "lit_backslash", "lit_brace", "lit_newline", "adjacent_pct", "match2", "xmatch2", "vlookup3",
                  "empty_formula", "only_eq_space", "nested4", "self_ref", "diag_range", "cross_sheet_range", "column_noarg",
                  "count_mixed", "index_multi", "sumif_cell", "address5", "text_fn", "neg_pct_chain",
-                 "row_zero", "abs_row_zero", "range_row_zero", "col_4letters", "wholecol_4letters", "col_beyond_xfd", "row_huge", "brackets8", "half_open_area", "half_open_area2", "empty_title", "empty_quoted_title"}
+                 "row_zero", "abs_row_zero", "range_row_zero", "col_4letters", "wholecol_4letters", "col_beyond_xfd", "row_huge", "brackets8", "half_open_area", "half_open_area2", "empty_title", "empty_quoted_title",
+                 "exp_huge", "long_sum", "sumif_wholecol_target", "column_4letters"}
 Placements == {"origin", "gap"}
 
 Rejecting == {"unknown_fn", "unknown_sheet", "lowercase_fn", "name", "error_literal", "unbalanced", "trailing_op",
@@ -26,7 +27,7 @@ Rejecting == {"unknown_fn", "unknown_sheet", "lowercase_fn", "name", "error_lite
               \* coordinates that do not exist: row 0, a column spelled with four letters
               "row_zero", "abs_row_zero", "range_row_zero", "col_4letters", "wholecol_4letters",
               \* an area with a row number on one side only; a sheet prefix with an empty title
-              "half_open_area", "half_open_area2", "empty_title", "empty_quoted_title"}
+              "half_open_area", "half_open_area2", "empty_title", "empty_quoted_title", "column_4letters"}
 MustBeOk == {"none", "valid_arith", "valid_fn", "valid_nested3", "valid_crosssheet", "valid_wholecol", "array_formula", "far_ref",
              "lit_quote", "lit_backslash", "lit_brace", "match2", "xmatch2", "vlookup3", "column_noarg", "count_mixed",
              "sumif_cell", "text_fn", "neg_pct_chain", "brackets8"}
